@@ -20,9 +20,24 @@ pub fn run(out: &mut Out, seed: u64, tier: &str) {
     let mut rng = Rng::new(seed ^ 0x1818);
     let n_pairs = if tier == "thorough" { 600 } else { 80 };
     let (mut n, mut worst_e, mut worst_g) = (0usize, 0.0f64, 0.0f64);
-    for _ in 0..n_pairs {
-        let a = { let m = random_mol(&mut rng); distort(&m, rng.range(0.0, 0.15), &mut rng) };
-        let b0 = { let m = random_mol(&mut rng); distort(&m, rng.range(0.0, 0.15), &mut rng) };
+    let lib = library();
+    // contrast pairs run first: two molecules in which the same element with the same number of neighbours has different
+    // correct types (alkene vs aromatic carbon, amine vs amide nitrogen, ...), and a lone-pair molecule next to a d8 centre
+    let contrast: [(&str, &str); 8] = [("ethene", "benzene"), ("formaldehyde", "benzene-built"), ("acetone", "benzene"), ("methylamine", "urea"),
+        ("ammonia", "formamide"), ("water", "ptcl4"), ("phosphine", "arsine"), ("methanol", "h2o2")];
+    let find = |n: &str| lib.iter().find(|m| m.name == n).cloned();
+    let mut queue: Vec<(Mol, Mol)> = vec![];
+    for (x, y) in contrast.iter() { if let (Some(a), Some(b)) = (find(x), find(y)) { queue.push((distort(&a, 0.03, &mut rng), distort(&b, 0.03, &mut rng))); } }
+    for pair in 0..(n_pairs + queue.len()) {
+        // every fifth pair is systematic: a library molecule (lone pairs, pi systems) next to a four-coordinate metal centre —
+        // the typing of such a centre (formal charge, d8-ness, square-planar vs tetrahedral) must not depend on its neighbour
+        let systematic = pair % 5 == 4;
+        let preset = if pair < queue.len() { Some(queue[pair].clone()) } else { None };
+        let a = if let Some((x, _)) = &preset { x.clone() } else if systematic { distort(&lib[rng.below(lib.len())], rng.range(0.0, 0.1), &mut rng) } else { let m = random_mol(&mut rng); distort(&m, rng.range(0.0, 0.15), &mut rng) };
+        let b0 = if let Some((_, y)) = &preset { y.clone() } else if systematic {
+            let m = centre(*rng.pick(&[28usize, 46, 78, 45, 77, 79, 29, 30, 26]), *rng.pick(&[1usize, 17, 9, 35]), *rng.pick(&["square", "tetrahedral"]), 1.0);
+            distort(&m, rng.range(0.01, 0.1), &mut rng)
+        } else { let m = random_mol(&mut rng); distort(&m, rng.range(0.0, 0.15), &mut rng) };
         if a.n() + b0.n() > 28 || a.min_distance() < 0.5 || b0.min_distance() < 0.5 { continue; }
         let sep = 10f64.powf(rng.range(1.7, 4.0));
         let dir = { let r = random_rotation(&mut rng); [r[0][0] * sep, r[1][0] * sep, r[2][0] * sep] };
